@@ -15,6 +15,10 @@ mod deque_sess;
 mod elem;
 mod exec;
 mod gen;
+#[cfg(feature = "std")]
+mod io_scn;
+#[cfg(not(feature = "std"))]
+#[path = "io_stub.rs"]
 mod io_scn;
 mod json;
 mod minimize;
@@ -219,6 +223,13 @@ fn parse_args() -> Args {
     a
 }
 
+/// start time (ms, never 0) of the execution the main thread is performing while minimising
+static MAIN_BEAT: AtomicU64 = AtomicU64::new(0);
+
+fn wd_limit_ms() -> u64 {
+    std::env::var("CBSIM_WATCHDOG_MS").ok().and_then(|s| s.parse().ok()).unwrap_or(60_000)
+}
+
 fn usage() -> ! {
     eprintln!("usage: cbsim batch|replay|gen|digests [--prop Cxx] [--seed S] [--runs R] [--start I] [--jobs J] [--mode plain|garbage|transports] [--out FILE] [--digests FILE] [--run I] [--trace] [file]");
     std::process::exit(2)
@@ -332,10 +343,15 @@ fn cmd_batch(args: &Args) {
             for w in 0..beats.len() {
                 let r = beats[w].load(Ordering::Relaxed);
                 let t = beat_time[w].load(Ordering::Relaxed);
-                if r != u64::MAX && now.saturating_sub(t) > 60_000 {
+                    if r != u64::MAX && now.saturating_sub(t) > wd_limit_ms() {
                     println!("HANG run={r}");
                     std::process::exit(3);
                 }
+            }
+            let m = MAIN_BEAT.load(Ordering::Relaxed);
+            if m != 0 && now.saturating_sub(m) > wd_limit_ms() {
+                println!("HANG minimise");
+                std::process::exit(3);
             }
         });
     }
@@ -489,7 +505,9 @@ fn cmd_batch(args: &Args) {
         let script = generate(&args.prop, args.seed, rf.run).unwrap();
         let mode = args.mode;
         let mut pred = |s: &Script| -> bool {
+            MAIN_BEAT.store(t0.elapsed().as_millis() as u64 + 1, Ordering::Relaxed);
             let o = execute_mode(s, mode, false);
+            MAIN_BEAT.store(0, Ordering::Relaxed);
             matches!(&o.failure, Some(f) if f.classes & mask != 0 && f.classes & cls::HARNESS == 0)
         };
         let (min, ms) = minimize::minimize(&script, args.min_budget, &mut pred);
